@@ -83,7 +83,9 @@ def _threads():
         try:
             r = []
             done = []
-            t = cls(target=lambda: done.append(1), args=(), daemon=True)
+            cur = threading.current_thread if cls is threading.Thread else sched.current_thread
+            t = cls(target=lambda: done.append(cur().name), args=(), daemon=True)
+            r.append(("outside", cur().name))
             r.append(_res(lambda: t.join()))                     # join before start
             r.append(_res(lambda: t.is_alive()))
             t.name = uuid.UUID(int=5)
@@ -92,7 +94,7 @@ def _threads():
             r.append(_res(lambda: t.join()))
             r.append(_res(lambda: t.is_alive()))
             r.append(_res(lambda: t.start()))                    # start twice
-            r.append(("ran", len(done)))
+            r.append(("ran", list(done)))
             r.append(("daemon", t.daemon))
             out.append(r)
         finally:
